@@ -173,8 +173,16 @@ func (c *netFD) connect(ctx context.Context, la, ra syscall.Sockaddr) (rsa sysca
 var (
 	errMissingAddress = errors.New("missing address")
 	errCanceled       = errors.New("operation was canceled")
-	errIOTimeout      = errors.New("i/o timeout")
+	errIOTimeout      = error(&timeoutError{})
 )
+
+// timeoutError is the dial timeout error. Like the one of package net it reports Timeout(),
+// so that the net.OpError wrapping it does.
+type timeoutError struct{}
+
+func (e *timeoutError) Error() string   { return "i/o timeout" }
+func (e *timeoutError) Timeout() bool   { return true }
+func (e *timeoutError) Temporary() bool { return true }
 
 // mapErr maps from the context errors to the historical internal net
 // error values.
